@@ -547,6 +547,12 @@ static void check_client(int dev, const struct stream_cfg* s, const struct acq_r
         uint64_t ep = s->avg > 1 ? ((ts_ep != 0 && ts_ep < r->cam_epoch[dev]) ? ts_ep : r->cam_epoch[dev])
                                  : epoch_of_pixels(dev, f->pixhash, f->hw_id, r->cam_epoch[dev]);
         if (ep == 0 && ts_ep != 0 && ts_ep < r->cam_epoch[dev]) ep = ts_ep; // e.g. an averaged frame of an earlier acquisition
+        // tiny frames (1x1 u8 = one pixel byte): the pixels of a frame of an earlier acquisition can equal those of this
+        // acquisition's frame with the same hardware id, and the lookup above prefers this acquisition.  The hardware
+        // timestamp (epoch << 32 | hardware id, copied by the source thread) settles it: if it names an earlier epoch
+        // whose camera frame of that hardware id had exactly these pixels, the frame is that earlier one.
+        if (!s->real_devices && s->avg <= 1 && ep == r->cam_epoch[dev] && ts_ep != 0 && ts_ep < r->cam_epoch[dev] &&
+            (uint32_t)f->ts_hw == (uint32_t)f->hw_id && epoch_of_pixels(dev, f->pixhash, f->hw_id, ts_ep) == ts_ep) ep = ts_ep;
         // the sample type tells leftovers apart as well: averaged frames are f32, raw frames of these cameras are not
         uint64_t earlier = r->cam_epoch[dev] > 1 ? r->cam_epoch[dev] - 1 : r->cam_epoch[dev] + 1000;
         if (s->avg > 1 && f->type != SampleType_f32) ep = earlier;
